@@ -17,6 +17,7 @@ import (
 type ctl struct {
 	mu     sync.Mutex
 	gids   map[uint64]int
+	ever   map[uint64]int // goroutine -> actor, kept after the goroutine has finished
 	parked map[int]chan struct{}
 	events chan event
 }
@@ -44,7 +45,7 @@ var regionPoint = map[string]bool{
 var stateHeldPoint = map[string]bool{"close.locked": true, "senderror.locked": true}
 
 func newCtl() *ctl {
-	return &ctl{gids: map[uint64]int{}, parked: map[int]chan struct{}{}, events: make(chan event, 256)}
+	return &ctl{gids: map[uint64]int{}, ever: map[uint64]int{}, parked: map[int]chan struct{}{}, events: make(chan event, 256)}
 }
 
 func goid() uint64 {
@@ -83,6 +84,7 @@ func (c *ctl) spawn(a int, f func()) {
 	go func() {
 		c.mu.Lock()
 		c.gids[goid()] = a
+		c.ever[goid()] = a
 		c.mu.Unlock()
 		close(started)
 		defer func() {
@@ -137,4 +139,14 @@ func (c *ctl) poll() (event, bool) {
 	default:
 		return event{}, false
 	}
+}
+
+// actorOf names the actor a goroutine belonged to (-1: none).
+func (c *ctl) actorOf(g uint64) int {
+	c.mu.Lock()
+	defer c.mu.Unlock()
+	if a, ok := c.ever[g]; ok {
+		return a
+	}
+	return -1
 }
